@@ -322,14 +322,9 @@ bool check(World &w, std::vector<FileSnap> &files, bool afterWrite, Violation &v
         active->a = a;
         active->b = total;
         nextStart = a;
-    } else if (afterWrite) {
-        v = { "C05", "no active file after a write" };
-        return false;
     }
-    if (afterWrite && (!active || active->a == total)) {
-        v = { "C05", "the record just written is not in the active file" };
-        return false;
-    }
+    // (the record just written need not be in the ACTIVE file - the property only fixes the concatenation;
+    //  that it is in some file is established by the coverage test below)
     for (int i = int(rot.size()) - 1; i >= 0; i--) {
         FileSnap *f = rot[size_t(i)];
         const long long sz = (long long)f->content.size();
